@@ -7,7 +7,7 @@ use super::sendbody::send_body_flow;
 use crate::engine::{guarded, pattern, Report, Tier, Violation};
 use crate::refmodel::chunked::decode_strict;
 
-pub const RULE: &str = "every output length n in 0..=3*10248+64 (thorough: 0..=10*10248+64) plus boundary set {k*10248+d, 16^j+d}: m = calculate_max_input(n) on the real SendBody flow, then the real write(input[..m], out[..n]); chunked and length-delimited bodies. distinct = distinct (mode, m>0, chunks emitted, hex digits of last chunk) classes";
+pub const RULE: &str = "every output length n in 0..=3*10248+64 (thorough: 0..=10*10248+64) plus boundary set {k*10248+d, 16^j+d}: m = calculate_max_input(n) on the real SendBody flow, then the real write(input[..m], out[..n]); chunked and length-delimited bodies; for length-delimited bodies additionally Content-Length {0,1,100,20000} x already-accounted {0,1,half,all} x n up to 70000 (the advertised size is n whatever remains). distinct = distinct (mode, m>0, chunks emitted, hex digits of last chunk) classes";
 
 const CHUNK: usize = 10 * 1024 + 8;
 
@@ -81,9 +81,44 @@ fn one(n: usize, chunked: bool) -> (usize, Option<(String, String)>, String) {
     }
 }
 
+/// "the advertised size is n itself for a length-delimited body" - whatever is left to send.
+fn sized_independent_of_remaining(rep: &mut Report) {
+    for cl in [0u64, 1, 100, 20_000] {
+        for pre in [0u64, 1, cl / 2, cl] {
+            if pre > cl {
+                continue;
+            }
+            let r = guarded(|| {
+                let mut f = send_body_flow(Some(cl));
+                if pre > 0 {
+                    f.consume_direct_write(pre as usize).map_err(|e| format!("{:?}", e))?;
+                }
+                let mut bad = None;
+                for n in [0usize, 1, 2, 99, 100, 101, 19_999, 20_000, 20_001, 70_000] {
+                    let m = f.calculate_max_input(n);
+                    if m != n {
+                        bad = Some((n, m));
+                        break;
+                    }
+                }
+                Ok::<_, String>(bad)
+            });
+            rep.evaluations += 1;
+            rep.transitions += 10;
+            match r {
+                Ok(Ok(None)) => rep.distinct_hash(&("sized-remaining", cl, pre)),
+                Ok(Ok(Some((n, m)))) => rep.violation(Violation { key: "C18:sized:not-n".into(), ord: 90_000_000 + cl, what: format!("length-delimited body (Content-Length {}, {} bytes already accounted for): advertised {} for a {}-byte buffer", cl, pre, m, n), replay: json!({"kind": "sized-remaining", "cl": cl, "pre": pre}) }),
+                Ok(Err(e)) => rep.violation(Violation { key: "C18:harness".into(), ord: 90_000_000, what: e, replay: json!({}) }),
+                Err(p) => rep.violation(Violation { key: format!("C18:panic:{}", crate::engine::panic_site(&p)), ord: 90_000_000, what: p, replay: json!({"kind": "sized-remaining", "cl": cl, "pre": pre}) }),
+            }
+        }
+    }
+}
+
 pub fn run(tier: Tier) -> Report {
     let ns = ns(tier);
     let mut rep = Report::new();
+    sized_independent_of_remaining(&mut rep);
     for chunked in [true, false] {
         let res: Vec<(usize, usize, Option<(String, String)>, String)> = ns
             .par_iter()
@@ -136,6 +171,11 @@ pub fn run(tier: Tier) -> Report {
 }
 
 pub fn replay(v: &Value) -> Result<Option<String>, String> {
+    if v["kind"].as_str() == Some("sized-remaining") {
+        let mut r = Report::new();
+        sized_independent_of_remaining(&mut r);
+        return Ok(r.violations.into_iter().next().map(|(k, (_, v))| format!("[{}] {}", k, v.what)));
+    }
     let n = v["n"].as_u64().ok_or("n")? as usize;
     let chunked = v["chunked"].as_bool().ok_or("chunked")?;
     let (m, fail, _) = one(n, chunked);
